@@ -55,8 +55,8 @@ from harness.common import cz, cnat, cbool, clist, ctup, import_aa
 ID = "C11"
 GEN = []
 PROPS = "Props/C11.v"
-COQ_CHECK = ("Model.C11", "check")
-COQ_FALLBACK = ("Model.C11", "spec_ok")
+COQ_CHECK = ("Model.C11c", "check")
+COQ_FALLBACK = ("Model.C11c", "spec_ok")
 COQ_IMPORTS = ""
 SHARD = 60
 RULE = ("random histories (length <= 26) over Array2D / Grid2D / VectorYX2D / Kernel2D / Visibilities / Mask2D / Imaging / "
@@ -142,6 +142,12 @@ def leaves(x, path="", out=None, seen=None, depth=0):
         return out
     if isinstance(x, dict):
         for i, k in enumerate(list(x)[:200]): leaves(x[k], f"{path}{{{i}}}", out, seen, depth + 1)
+        return out
+    if type(x).__module__.startswith("scipy."):
+        # a scipy.spatial Delaunay / Voronoi object: its defining arrays (it fills private lazy fields -- _transform,
+        # _vertex_to_simplex -- when it is queried: its own business, not the library's)
+        for k in ("points", "simplices", "neighbors", "vertices", "ridge_points", "ridge_vertices", "regions", "point_region"):
+            if k in getattr(x, "__dict__", {}): leaves(x.__dict__[k], f"{path}.{k}", out, seen, depth + 1)
         return out
     d = getattr(x, "__dict__", None)
     if isinstance(d, dict) and not isinstance(x, type) and not callable(x):
@@ -893,7 +899,8 @@ def build_reuse(inp, only=None):
     invs = inp["invs"] if only is None else [inp["invs"][only]]
     dss, mps, owned = {}, {}, []
     def cfg_for(d, mlist):
-        return dict(base, data=inp["datasets"][d]["data"], noise=inp["datasets"][d]["noise"], mappers=[inp["mappers"][k] for k in mlist])
+        return dict(base, data=inp["datasets"][d]["data"], noise=inp["datasets"][d]["noise"], psf=inp["datasets"][d].get("psf", PSF),
+                    mappers=[inp["mappers"][k] for k in mlist])
     settings = None
     pre = None
     out = []
@@ -935,6 +942,17 @@ def run_reuse(inp):
             tw[(k, who, name)] = graph_read(tb[0], who, name)
         if graph_read(built[k], who, name) != tw[(k, who, name)]:
             bad.append(f"inversion {k}: {who}.{name} differs from the twin built from unshared parts")
+    if inp.get("scaled"):
+        # metamorphic oracle that does not go through a twin (a cache shared by ALL objects would serve the twin the same stale
+        # value): datasets 0 and 1 hold data d and 2 d with one noise map, inversions 0 and 1 use the same mappers, so the data
+        # vector of the second is exactly twice the first's (every term of the sum doubles exactly) and the curvature matrices agree
+        try:
+            d0, d1 = np.array(built[0][0].data_vector), np.array(built[1][0].data_vector)
+            f0, f1 = np.array(built[0][0].curvature_matrix), np.array(built[1][0].curvature_matrix)
+            if not np.array_equal(2.0 * d0, d1): bad.append("data_vector of the inversion on 2 x data is not twice the data_vector on data")
+            if not np.array_equal(f0, f1): bad.append("curvature_matrix differs between two datasets with one noise map")
+        except Exception as e:   # noqa
+            bad.append("scaled pair: " + type(e).__name__)
     ch = leaves_changed(fp0, leaves([owned, singletons]))
     if ch: bad.append("caller-owned input changed: " + ",".join(ch[:4]))
     shared = "+".join(x for x, c in (("dataset", len({iv["ds"] for iv in inp["invs"]}) < len(inp["invs"])),
@@ -944,17 +962,63 @@ def run_reuse(inp):
            "kind": "reuse:" + (shared or "settings")}
     if bad: res["detail"] = "; ".join(bad[:5])
     return res
+def with_sweeps(rng, prefix, universe):
+    """a random prefix, then every quantity of [universe] once in a random order and once more in the reverse order: for every
+    ordered pair (X, Y) of quantities some read of Y follows a read of X"""
+    order = [list(u) for u in universe]; rng.shuffle(order)
+    return [list(p) for p in prefix] + order + order[::-1]
+REUSE_KEY_Q = ["operated_mapping_matrix", "data_vector", "curvature_matrix", "regularization_matrix", "curvature_reg_matrix",
+               "reconstruction", "mapped_reconstructed_data", "log_det_curvature_reg_matrix_term"]
 def gen_reuse(rng):
+    if rng.random() < 0.75: return gen_reuse_scenario(rng)
+    return gen_reuse_random(rng)
+def gen_reuse_scenario(rng):
+    """the three ways parts are shared downstream: one mapper set fitted to two datasets (data, noise, psf differ); one dataset
+    fitted with two mapper sets whose matrices have ONE shape and different contents; the same fit on d and on 2 d"""
+    H, W = rng.randint(5, 6), rng.randint(5, 6)
+    base = {"shape": [H, W], "holes": [], "w_tilde": rng.random() < 0.4, "positive": False, "sub": 1}
+    mk = lambda: {"data": [rng.randint(0, 20) for _ in range(H * W)], "noise": [rng.choice([1, 2, 4]) for _ in range(H * W)]}
+    mappers = [[3, 3, rng.choice([1.0, 2.0])], [2, 2, 1.0], [3, 2, 4.0], [2, 3, 4.0]]
+    sc = rng.choice(["two-datasets", "two-mapper-sets", "scaled"])
+    scaled = False
+    if sc == "two-datasets":
+        datasets = [mk(), mk()]
+        if rng.random() < 0.5: datasets[1]["psf"] = [[0.0, 1.0, 0.0], [2.0, 4.0, 1.0], [0.0, 1.0, 1.0]]
+        ms = rng.choice([[0], [1], [0, 1], [2]])
+        invs = [{"ds": 0, "mappers": ms}, {"ds": 1, "mappers": list(ms)}]
+    elif sc == "two-mapper-sets":
+        datasets = [mk()]
+        a, b = rng.choice([([2], [3]), ([3], [2]), ([0, 2], [0, 3]), ([2], [3])])
+        invs = [{"ds": 0, "mappers": a}, {"ds": 0, "mappers": b}]
+    else:
+        d0 = mk(); datasets = [d0, {"data": [2 * x for x in d0["data"]], "noise": list(d0["noise"])}]
+        ms = rng.choice([[0], [0, 1], [2]])
+        invs = [{"ds": 0, "mappers": ms}, {"ds": 1, "mappers": list(ms)}]; scaled = True
+    pre = rng.choice([None, None, ["regularization_matrix"]]) if sc != "two-mapper-sets" else None
+    inp = {"op": "reuse", "base": base, "datasets": datasets, "mappers": mappers, "invs": invs, "preload": pre, "scaled": scaled}
+    uni = [[k, "inv", q] for k in (0, 1) for q in REUSE_KEY_Q] + [[k, "mapper0", "mapping_matrix"] for k in (0, 1)]
+    inp["reads"] = with_sweeps(rng, [rng.choice(uni) for _ in range(rng.randint(0, 3))], uni)
+    return inp
+def gen_reuse_random(rng):
     H, W = rng.randint(5, 6), rng.randint(5, 6)
     base = {"shape": [H, W], "holes": [], "w_tilde": rng.random() < 0.5, "positive": rng.random() < 0.2, "sub": 1}
     nd = rng.choice([1, 2, 2])
     datasets = [{"data": [rng.randint(0, 20) for _ in range(H * W)], "noise": [rng.choice([1, 2, 4]) for _ in range(H * W)]} for _ in range(nd)]
-    mappers = [[3, 3, rng.choice([1.0, 2.0])], [2, 2, 1.0], [3, 2, 4.0]]
+    # [3, 2] and [2, 3] meshes: mapping matrices of one shape and different contents
+    mappers = [[3, 3, rng.choice([1.0, 2.0])], [2, 2, 1.0], [3, 2, 4.0], [2, 3, 4.0]]
     invs = []
     for _ in range(rng.randint(2, 3)):
-        invs.append({"ds": rng.randrange(nd), "mappers": rng.choice([[0], [0], [1], [0, 1], [2]])})
-    inp = {"op": "reuse", "base": base, "datasets": datasets, "mappers": mappers, "invs": invs,
-           "preload": rng.choice([None, None, ["regularization_matrix"], ["operated_mapping_matrix"]])}
+        invs.append({"ds": rng.randrange(nd), "mappers": rng.choice([[0], [0], [1], [0, 1], [2], [3], [2], [3]])})
+    scaled = nd == 2 and rng.random() < 0.5
+    psf2 = [[0.0, 1.0, 0.0], [2.0, 4.0, 1.0], [0.0, 1.0, 1.0]]
+    if scaled:
+        datasets[1] = {"data": [2 * x for x in datasets[0]["data"]], "noise": list(datasets[0]["noise"])}
+        invs[0]["ds"], invs[1]["ds"] = 0, 1; invs[1]["mappers"] = list(invs[0]["mappers"])
+        base["positive"] = False
+    elif nd == 2 and rng.random() < 0.5: datasets[1]["psf"] = psf2
+    pre = rng.choice([None, None, ["regularization_matrix"], ["operated_mapping_matrix"]])
+    if pre == ["operated_mapping_matrix"] and any("psf" in d for d in datasets): pre = ["regularization_matrix"]   # it depends on the psf
+    inp = {"op": "reuse", "base": base, "datasets": datasets, "mappers": mappers, "invs": invs, "preload": pre, "scaled": scaled}
     reads = []
     for _ in range(rng.randint(4, 12)):
         k = rng.randrange(len(invs))
@@ -1119,6 +1183,8 @@ def gen_fit(rng):
     for _ in range(rng.randint(4, 14)):
         w = rng.choice(["fit"] * 6 + ["inv"] * 3 + ["ds", "grids", "mapper0"])
         reads.append([w, rng.choice(FIT_Q if w == "fit" else GRAPH_Q["mapper" if w.startswith("mapper") else w])])
+    if rng.random() < 0.5:
+        reads = with_sweeps(rng, reads[:3], [["fit", q] for q in FIT_Q] + [["inv", q] for q in REUSE_KEY_Q] + [["ds", q] for q in GRAPH_Q["ds"]])
     return {"op": "fit", "cfg": cfg, "reads": reads}
 
 # ----------------------------------------------------------------------------- triangulation meshes (Delaunay / Voronoi)
@@ -1221,7 +1287,179 @@ def gen_mesh(rng):
         w = rng.choice(who)
         reads.append([w, rng.choice(MESH_Q[w])])
         if rng.random() < 0.2: reads.append(list(reads[-1]))
+    if rng.random() < 0.5:
+        reads = with_sweeps(rng, reads[:3], [[w, q] for w in ("mesh", "mapper", "valued") for q in MESH_Q[w]])
     return {"op": "mesh", "cfg": cfg, "reads": reads}
+
+# ----------------------------------------------------------------------------- PART D: quantity graphs (KGraph)
+# node tables of the graphs of coq/Model/C11g.v [ginstance], in the same order: (owner object, attribute, kind)
+GI, GC, GP = "input", "cached", "plain"
+GNODES = {
+    "mesh": [("mesh", "_array", GI), ("mesh", "delaunay", GC), ("mesh", "voronoi", GC), ("mesh", "edge_pixel_list", GC),
+             ("mesh", "voronoi_pixel_areas", GP), ("mesh", "voronoi_pixel_areas_for_split", GC), ("mesh", "split_cross", GC),
+             ("mesh", "areas_for_magnification", GP), ("mesh", "neighbors", GC), ("mesh", "interp", GP)],
+    "fit": [("ds", "data", GI), ("ds", "noise_map", GI), ("ds", "psf", GI), ("mapper", "source_plane_data_grid", GI),
+            ("ds", "grids", GC), ("ds", "convolver", GC), ("mapper", "pix_sub_weights", GC), ("mapper", "unique_mappings", GC),
+            ("mapper", "mapping_matrix", GC), ("inv", "mapping_matrix", GC), ("inv", "operated_mapping_matrix", GC),
+            ("inv", "data_vector", GC), ("inv", "curvature_matrix", GC), ("inv", "regularization_matrix", GC),
+            ("inv", "regularization_matrix_reduced", GC), ("inv", "curvature_reg_matrix", GC), ("inv", "curvature_reg_matrix_reduced", GC),
+            ("inv", "reconstruction", GC), ("inv", "reconstruction_reduced", GC), ("inv", "mapped_reconstructed_data_dict", GP),
+            ("inv", "mapped_reconstructed_data", GC), ("inv", "regularization_term", GC), ("inv", "log_det_curvature_reg_matrix_term", GC),
+            ("inv", "log_det_regularization_matrix_term", GC), ("fit", "residual_map", GP), ("fit", "chi_squared_map", GP),
+            ("fit", "chi_squared", GP), ("fit", "noise_normalization", GP), ("fit", "log_evidence", GP)],
+    "chain": [("ds", "data", GI), ("ds", "noise_map", GI), ("ds", "psf", GI), ("hold", "osd", GI), ("hold", "mask2", GI),
+              ("ds", "grids", GC), ("ds", "convolver", GC), ("ds", "w_tilde", GC), ("ds", "signal_to_noise_map", GP),
+              ("hold", "ds2", GC), ("ds2", "grids", GC), ("ds2", "convolver", GC), ("ds2", "data", GP), ("ds2", "noise_map.native", GP),
+              ("ds2", None, GP), ("hold", "ds3", GC), ("ds3", "noise_map", GP), ("ds3", "data", GP), ("ds3", "grids", GC),
+              ("ds3", "signal_to_noise_map", GP), ("ds2", "signal_to_noise_map", GP)],
+    "interf": [("ds", "data", GI), ("ds", "noise_map", GI), ("ds", "uv_wavelengths", GI), ("mapper", "source_plane_data_grid", GI),
+               ("ds", "grids", GC), ("mapper", "pix_sub_weights", GC), ("mapper", "mapping_matrix", GC), ("inv", "mapping_matrix", GC),
+               ("inv", "operated_mapping_matrix", GC), ("inv", "data_vector", GC), ("inv", "curvature_matrix", GC),
+               ("inv", "regularization_matrix", GC), ("inv", "regularization_matrix_reduced", GC), ("inv", "curvature_reg_matrix", GC),
+               ("inv", "curvature_reg_matrix_reduced", GC), ("inv", "reconstruction", GC), ("inv", "reconstruction_reduced", GC),
+               ("inv", "mapped_reconstructed_data_dict", GP), ("inv", "mapped_reconstructed_data", GC),
+               ("inv", "mapped_reconstructed_image_dict", GP), ("inv", "mapped_reconstructed_image", GC), ("inv", "regularization_term", GC),
+               ("inv", "log_det_curvature_reg_matrix_term", GC), ("inv", "log_det_regularization_matrix_term", GC),
+               ("ds", "signal_to_noise_map", GP)],
+}
+GINST = {0: "mesh", 1: "mesh", 2: "fit", 3: "chain", 4: "interf"}
+class Holder:
+    """the user's variables: a derived dataset is bound when it is first asked for"""
+    def __init__(self, ds, osd, mask2): self.ds, self.osd, self.mask2 = ds, osd, mask2
+    def get(self, name):
+        if name not in self.__dict__:
+            if name == "ds2": self.ds2 = self.ds.apply_over_sampling(over_sampling=self.osd)
+            if name == "ds3": self.ds3 = self.get("ds2").apply_noise_scaling(mask=self.mask2, noise_value=64.0)
+        return self.__dict__[name]
+def build_chain(cfg):
+    aa = import_aa()
+    ds, mappers, settings, owned = build_graph(dict(cfg, mappers=[], w_tilde=False, funcs=[]))
+    osd = aa.OverSamplingDataset(uniform=aa.OverSamplingUniform(sub_size=2), pixelization=aa.OverSamplingUniform(sub_size=2))
+    m2 = np.array(cfg["mask2"], dtype=bool); mask2 = aa.Mask2D(mask=m2, pixel_scales=1.0)
+    return {"ds": ds, "hold": Holder(ds, osd, mask2)}, owned + [osd, m2, mask2]
+def build_interf(cfg):
+    aa = import_aa()
+    H, W = cfg["shape"]
+    m = np.ones((H, W), bool); m[1:H - 1, 1:W - 1] = False
+    mask = aa.Mask2D(mask=m, pixel_scales=1.0)
+    vv = np.array(cfg["vis"], dtype=float).reshape(-1, 2); vis_nd = vv[:, 0] + 1j * vv[:, 1]
+    vis = aa.Visibilities(visibilities=vis_nd)
+    nn = np.array(cfg["vis_noise"], dtype=float).reshape(-1, 2); nm_nd = nn[:, 0] + 1j * nn[:, 1]
+    nm = aa.VisibilitiesNoiseMap(visibilities=nm_nd)
+    uv = np.array(cfg["uv"], dtype=float).reshape(-1, 2)
+    osd = aa.OverSamplingDataset(pixelization=aa.OverSamplingUniform(sub_size=1))
+    it = aa.Interferometer(data=vis, noise_map=nm, uv_wavelengths=uv, real_space_mask=mask, transformer_class=aa.TransformerDFT, over_sampling=osd)
+    # the mapper's grids come from a throw-away dataset, so that `it` itself has never been read
+    it0 = aa.Interferometer(data=vis, noise_map=nm, uv_wavelengths=uv.copy(), real_space_mask=mask, transformer_class=aa.TransformerDFT, over_sampling=osd)
+    grid = it0.grids.pixelization
+    osg = grid.over_sampler.over_sampled_grid
+    mesh = aa.Mesh2DRectangular.overlay_grid(grid=osg, shape_native=(3, 3))
+    mg = aa.MapperGrids(mask=mask, source_plane_data_grid=osg, source_plane_mesh_grid=mesh)
+    mapper = aa.Mapper(mapper_grids=mg, over_sampler=grid.over_sampler, regularization=aa.reg.Constant(coefficient=cfg.get("coeff", 1.0)))
+    settings = aa.SettingsInversion(use_w_tilde=cfg.get("w_tilde", True), no_regularization_add_to_curvature_diag_value=1.0)
+    inv = aa.Inversion(dataset=it, linear_obj_list=[mapper], settings=settings)      # through the factory (D12: settings stay as given)
+    return {"ds": it, "mapper": mapper, "inv": inv}, [m, vis_nd, nm_nd, uv, mask, vis, nm, osd, settings]
+def gbuild(inst, cfg):
+    if inst in (0, 1): return build_mesh_graph(cfg)
+    if inst == 2:
+        fit, ds, mappers, owned = build_fit(cfg)
+        return {"fit": fit, "ds": ds, "mapper": mappers[0], "inv": fit.inversion}, owned
+    if inst == 3: return build_chain(cfg)
+    if inst == 4: return build_interf(cfg)
+    raise ValueError(inst)
+def gowner(parts, owner, bind=False):
+    if owner in ("ds2", "ds3"):
+        hold = parts["hold"]
+        return hold.get(owner) if bind else hold.__dict__.get(owner)
+    return parts[owner]
+def gvalue(parts, node, cfg):
+    """the raw value a read of the node gives the user (exceptions propagate)"""
+    owner, name, kind = node
+    o = gowner(parts, owner, bind=True)
+    if owner == "hold" and name in ("ds2", "ds3"):
+        d = o.get(name); return [d.data, d.noise_map, d.over_sampling.uniform.sub_size]
+    if name == "noise_map.native": return o.noise_map.native
+    if name == "interp": return o.interpolated_array_from(values=np.array(cfg["values"], dtype=float), shape_native=(5, 4))
+    if name == "_array": return o._array
+    if owner == "hold": return getattr(o, name)
+    v = getattr(o, name)
+    if name == "neighbors": return [np.asarray(v), getattr(v, "sizes", None)]
+    if name == "pix_sub_weights": return [v.mappings, v.sizes, v.weights]
+    if name == "unique_mappings": return [v.data_to_pix_unique, v.data_weights, v.pix_lengths]
+    return v
+def gencode(v, name):
+    if name == "grids": return view_grids(v)
+    if name == "convolver": return view_convolver(v)
+    if name == "w_tilde": return view_w_tilde(v)
+    try: return enc_val(v)
+    except TypeError: return [zlib.crc32(repr(sorted((k, str(x)) for k, x in leaves(v, "v").items())).encode())]
+def gread_node(parts, node, cfg):
+    try: return digest(gencode(gvalue(parts, node, cfg), node[1]))
+    except Exception as e:   # noqa
+        return digest(exc_code(e))
+def gpresent(nodes, parts):
+    """node -> fingerprint of the value stored under it: cached_property entries present in the instance __dict__s, and the inputs"""
+    out = {}
+    for n, (owner, name, kind) in enumerate(nodes):
+        o = gowner(parts, owner)
+        if o is None or name is None: continue
+        if kind == GC and name in o.__dict__: out[n] = leaves(o.__dict__[name], "v") if owner != "hold" else {}
+        if kind == GI:
+            x = o._array if name == "_array" else getattr(o, name)
+            out[n] = leaves(x, "v")
+    return out
+_G_TWINS = {}
+def run_gcase(inp):
+    inst, cfg = inp["inst"], inp["cfg"]
+    nodes = GNODES[GINST[inst]]
+    tw = _G_TWINS.setdefault((inst, str(sorted(cfg.items()))), {})
+    for n, node in enumerate(nodes):
+        if n not in tw:
+            if node[1] is None: tw[n] = [0, 0]; continue
+            tparts, _ = gbuild(inst, cfg)
+            tw[n] = gread_node(tparts, node, cfg)
+    parts, owned = gbuild(inst, cfg)
+    fp0 = leaves(owned)
+    out = []
+    for n in inp["reads"]:
+        before = gpresent(nodes, parts)
+        v = gread_node(parts, nodes[n], cfg)
+        after = gpresent(nodes, parts)
+        filled = sorted(m for m in after if nodes[m][2] == GC)
+        changed = sorted(m for m in before if m in after and leaves_changed(before[m], after[m]))
+        out.append((v, filled, changed))
+    ch = leaves_changed(fp0, leaves(owned))
+    cnl = lambda l: clist([cnat(x) for x in l])
+    couts = clist([f"({carr(v)}, {cnl(f)}, {cnl(c)})" for v, f, c in out])
+    coq = f"(KGraph {cnat(inst)} {clist([carr(tw[n]) for n in range(len(nodes))])} {cnl(inp['reads'])} {couts})"
+    tally("graph-machine reads", len(inp["reads"]))
+    res = {"coq": coq, "out": {"reads": inp["reads"], "filled": [f for _, f, _ in out][-1:], "changed": [c for _, _, c in out if c]},
+           "py_ok": False if ch else None, "nontrivial": len(inp["reads"]) >= 2, "kind": "gcase:" + GINST[inst] + (":voronoi" if inst == 1 else "")}
+    if ch: res["detail"] = "caller-owned input changed: " + ",".join(ch[:4])
+    return res
+def gen_gcase(rng, inst):
+    nodes = GNODES[GINST[inst]]
+    if inst in (0, 1):
+        cfg = gen_mesh(rng)["cfg"]; cfg["kind"] = "voronoi" if inst == 1 else "delaunay"
+        ok = [n for n in range(len(nodes)) if not (inst == 0 and n == 7)]      # Mesh2DDelaunay has no areas_for_magnification
+    elif inst == 2:
+        cfg = rand_cfg(rng); cfg.update(preloads=[], funcs=[], mappers=[[3, 3, rng.choice([1.0, 2.0])]], w_tilde=False, positive=False)
+        ok = list(range(len(nodes)))
+    elif inst == 3:
+        cfg = rand_cfg(rng); H, W = cfg["shape"]; cfg["native"] = rng.random() < 0.5
+        cfg["mask2"] = [[(y < 2 or y > H - 3 or x < 2 or x > W - 3) for x in range(W)] for y in range(H)]
+        ok = [n for n in range(len(nodes)) if n != 14]                         # the edited noise map is not a public quantity by itself
+    else:
+        nv = rng.randint(3, 5)
+        cfg = {"shape": [rng.randint(5, 6), rng.randint(5, 6)], "vis": [rng.choice([-1, 1]) * rng.randint(1, 9) for _ in range(2 * nv)],
+               "vis_noise": [rng.choice([1, 2]) for _ in range(2 * nv)], "uv": [rng.randint(-3, 3) for _ in range(2 * nv)],
+               "w_tilde": rng.random() < 0.5, "coeff": rng.choice([1.0, 2.0])}
+        ok = list(range(len(nodes)))
+    reads = []
+    for _ in range(rng.randint(2, 9)):
+        reads.append(rng.choice(ok))
+        if rng.random() < 0.2: reads.append(reads[-1])
+    return {"op": "gcase", "inst": inst, "cfg": cfg, "reads": reads}
 
 # ----------------------------------------------------------------------------- seeded simulation
 def run_seed(inp):
@@ -1268,6 +1506,10 @@ def run_seed(inp):
     return res
 
 def run_case(inp):
+    r = run_case0(inp)
+    if r.get("coq") and not r["coq"].startswith("(KGraph"): r["coq"] = "(KA " + r["coq"] + ")"
+    return r
+def run_case0(inp):
     op = inp["op"]
     if op == "hist": return run_hist(inp)
     if op == "inv": return run_inv(inp)
@@ -1278,6 +1520,7 @@ def run_case(inp):
     if op == "reuse": return run_reuse(inp)
     if op == "edit": return run_edit(inp)
     if op == "fit": return run_fit(inp)
+    if op == "gcase": return run_gcase(inp)
     raise ValueError(op)
 
 # ----------------------------------------------------------------------------- generators
@@ -1568,13 +1811,15 @@ def gen_inputs(tier, rng):
         yield {"op": "inv", "cfg": cfg, "pre": pre, "qs": qs}
     yield {"op": "inv", "cfg": {"shape": [5, 6], "holes": [[2, 2]], "data": list(range(30)), "noise": [2] * 30, "mappers": [[3, 3, 1.0], [2, 2, None]],
                                "w_tilde": True, "positive": False, "sub": 1, "preloads": []}, "pre": "PDiag", "qs": ["QF", "QPreDiag", "QFR", "QF", "QPreDiag"]}
-    for k in range(300 if big else 30):
+    for k in range(300 if big else 26):
         cfg = rand_cfg(rng)
         who = ["inv"] * 6 + ["mapper0", "mapper1", "ds", "grids", "mask"]
         reads = []
         for _ in range(rng.randint(3, 14)):
             w = rng.choice(who)
             reads.append([w, rng.choice(GRAPH_Q["mapper" if w.startswith("mapper") else w])])
+        if k % 2 == 0:       # every quantity of the inversion after every other one
+            reads = with_sweeps(rng, reads[:4], [["inv", q] for q in GRAPH_Q["inv"]] + [["mapper0", "mapping_matrix"], ["ds", "signal_to_noise_map"]])
         yield {"op": "graph", "cfg": cfg, "reads": reads}
     # the D20 witness: two mappers, w-tilde, a preloaded block-diagonal curvature matrix
     yield {"op": "graph", "cfg": {"shape": [5, 6], "holes": [[2, 2]], "data": list(range(30)), "noise": [2] * 30, "mappers": [[3, 3, 1.0], [2, 2, 1.0]],
@@ -1607,13 +1852,15 @@ def gen_inputs(tier, rng):
         post = sorted(set(pre[:2] + rng.sample(dsq, rng.randint(1, 3))))
         yield {"op": "dsderive", "cfg": cfg, "pre_reads": pre, "derivs": derivs, "post_reads": post}
     # triangulation meshes (Delaunay / Voronoi): random read orders over mesh / mapper / valued mapper / inversion
-    for k in range(240 if big else 24): yield gen_mesh(rng)
+    for k in range(240 if big else 16): yield gen_mesh(rng)
     # object reuse: one dataset / mapper / settings / Preloads object serving several inversions
-    for k in range(200 if big else 20): yield gen_reuse(rng)
+    for k in range(200 if big else 16): yield gen_reuse(rng)
     # read -> the user edits the object in place -> re-read
     for k in range(400 if big else 40): yield gen_edit(rng)
     # fits: FitImaging -> dataset -> inversion -> mappers
-    for k in range(240 if big else 24): yield gen_fit(rng)
+    for k in range(240 if big else 16): yield gen_fit(rng)
+    # PART D: reads on the quantity graphs of Model/C11g.v (cache fills and changed entries are compared inside Coq)
+    for k in range(300 if big else 35): yield gen_gcase(rng, k % 5)
     for k in range(120 if big else 18):
         H, W = rng.randint(2, 4), rng.randint(2, 4)
         vias = ["simulator", "poisson", "gaussian", "interferometer"]
